@@ -185,3 +185,81 @@ func VerifC13_OwnersReachable() {
 	_ = internal.ReadEvent
 	vf.Reach("end")
 }
+
+// (b) generalised: histories of k steps over up to three objects of any closable kind — each step
+// creates an object (conn, listener, packet conn, file, timer) or calls Close on ANY slot, closed ones
+// included (repeated Close). With lowest-free descriptor numbers a stale Close hits whoever owns the
+// number now. After every step: every live object's descriptor is still open and the number of open
+// descriptors is exactly the number the live objects own.
+type c13Obj struct {
+	kind   int
+	live   bool
+	used   bool
+	fd     int // -1 for timers (counted only)
+	closer func() error
+}
+
+func VerifC13_CloseHistory() {
+	vkernel.Reset(vkernel.Config{Batch: 1})
+	ioc := MustIO()
+	base := vkernel.OpenCount()
+	var objs [3]c13Obj
+	K := vf.Bound("k", 4, 5)
+	vf.Unwind(16)
+	for s := 0; s < K; s++ {
+		a := vf.Choice("action", 8)
+		if a < 5 {
+			slot := -1
+			for i := range objs {
+				if !objs[i].used {
+					slot = i
+					break
+				}
+			}
+			vf.Assume(slot >= 0)
+			o := &objs[slot]
+			o.kind, o.used, o.live = a, true, true
+			switch a {
+			case 0:
+				c, err := Dial(ioc, "tcp", "10.0.0.1:80")
+				vf.Assume(err == nil)
+				o.fd, o.closer = c.RawFd(), c.Close
+			case 1:
+				l, err := Listen(ioc, "tcp", "")
+				vf.Assume(err == nil)
+				o.fd, o.closer = l.RawFd(), l.Close
+			case 2:
+				c, err := NewPacketConn(ioc, "udp", "")
+				vf.Assume(err == nil)
+				o.fd, o.closer = c.RawFd(), c.Close
+			case 3:
+				f, err := Open(ioc, "/tmp/x", 0, 0)
+				vf.Assume(err == nil)
+				o.fd, o.closer = f.RawFd(), f.Close
+			case 4:
+				t, err := NewTimer(ioc)
+				vf.Assume(err == nil)
+				o.fd, o.closer = -1, t.Close
+			}
+		} else {
+			o := &objs[a-5]
+			vf.Assume(o.used)
+			if !o.live {
+				vf.Reach("opt:repeated-close")
+			}
+			o.closer()
+			o.live = false
+		}
+		live := 0
+		for i := range objs {
+			if objs[i].used && objs[i].live {
+				live++
+				if objs[i].fd >= 0 {
+					vf.Assert("live-objects-keep-their-descriptor", vkernel.IsOpen(objs[i].fd))
+				}
+			}
+		}
+		vf.Assert("open-descriptors-are-exactly-the-live-objects", vkernel.OpenCount() == base+live)
+	}
+	vf.Reach("end")
+}
